@@ -1,6 +1,7 @@
 package checks
 
 import (
+	"math"
 	"fmt"
 	"os"
 	"sort"
@@ -50,6 +51,17 @@ var c03Typed = []c03Val{
 	{"NULL", func(r Row, c string) { r[c] = nil }, ref.Null()},
 }
 
+// c03Large: values that are large relative to their spread (counters, epoch seconds): a numerically naive
+// one-pass variance (sum of squares minus square of sums) collapses to 0 or goes negative here.
+var c03Large = []c03Val{
+	{"1e9+1", func(r Row, c string) { r[c] = 1e9 + 1 }, ref.Num(1e9 + 1)},
+	{"1e9+2", func(r Row, c string) { r[c] = 1e9 + 2 }, ref.Num(1e9 + 2)},
+	{"1e9+4", func(r Row, c string) { r[c] = 1e9 + 4 }, ref.Num(1e9 + 4)},
+	{"1e9+8", func(r Row, c string) { r[c] = 1e9 + 8 }, ref.Num(1e9 + 8)},
+	{"-1e9", func(r Row, c string) { r[c] = -1e9 }, ref.Num(-1e9)},
+	{"NULL", func(r Row, c string) { r[c] = nil }, ref.Null()},
+}
+
 // c03Cur is the alphabet of the running unit (a worker process runs one unit).
 var c03Cur = c03Alphabet
 
@@ -79,6 +91,7 @@ func c03Configs(tier string) []c03Cfg {
 		out = append(out, c03Cfg{"expr", n, "single"})
 	}
 	out = append(out, c03Cfg{"typed", 2, "single"}, c03Cfg{"typed-pct", 2, "single"})
+	out = append(out, c03Cfg{"large", 3, "single"}, c03Cfg{"large", 4, "single"})
 	out = append(out, c03Cfg{"groups", 2, "single"})
 	if tier == "thorough" {
 		out = append(out, c03Cfg{"groups", 3, "single"})
@@ -90,7 +103,7 @@ var c03Pcts = []float64{0, 0.25, 0.5, 0.95, 1}
 
 func c03SQL(cfg c03Cfg) string {
 	switch cfg.Query {
-	case "typed":
+	case "typed", "large":
 		return c03SQL(c03Cfg{"main", cfg.N, cfg.Mode})
 	case "typed-pct":
 		return c03SQL(c03Cfg{"pct", cfg.N, cfg.Mode})
@@ -144,9 +157,19 @@ func c03RefVals(seq []int) []ref.Val {
 }
 
 // cmpNum: got must be a number close to want.
+// c03Tol: relative tolerance of numeric comparisons (1e-9; 1e-6 for the large-offset alphabet, where the
+// correctly rounded mean already carries an absolute error of about 1e-7).
+var c03Tol = 1e-9
+
 func cmpNum(got any, want float64) bool {
 	g, ok := num(got)
-	return ok && ref.Close(g, want)
+	if !ok {
+		return false
+	}
+	if g == want {
+		return true
+	}
+	return math.Abs(g-want) <= c03Tol*math.Max(math.Max(math.Abs(g), math.Abs(want)), 1)
 }
 
 func numList(v any) ([]float64, bool) {
@@ -473,6 +496,10 @@ func (c03) Run(u fw.Unit) fw.Result {
 	if cfg.Query == "typed" || cfg.Query == "typed-pct" {
 		c03Cur = c03Typed
 	}
+	if cfg.Query == "large" {
+		c03Cur = c03Large
+		c03Tol = 1e-6
+	}
 	K := len(c03Cur)
 	dump := os.Getenv("VERIF_PROBE") != ""
 	switch {
@@ -638,7 +665,7 @@ func (c03) Run(u fw.Unit) fw.Result {
 				var names any
 				var vals []ref.Val
 				switch cfg.Query {
-				case "main", "typed":
+				case "main", "typed", "large":
 					vals = c03RefVals(s)
 					names = c03Names(s)
 					fs := c03CheckMainAll(row, vals, true)
@@ -683,7 +710,7 @@ func (c03) Run(u fw.Unit) fw.Result {
 func (c03) Describe(tier string) fw.Description {
 	return fw.Description{
 		Level: "model_checking",
-		Rule: "bounded-exhaustive enumeration on the real engine (CountingWindow(N) batches, deterministic schedule): all value sequences of length N over {-2,0,1,2.5,NULL,missing} for 16 aggregate columns, percentile(p in 0,.25,.5,.95,1)/nth_value, expression arguments (v+w, v*2, (v-1)*2, d.x) over all pairs of values per row; every batch runs on an instance shared with all other batches in forward and reverse enumeration order (state leak between consecutive batches), all ordered pairs of batches for N<=2 on fresh instances, and two interleaved groups in one tumbling window for all pairs of per-group sequences; all pairs of values over the 12 Go numeric types (int8..uint64, float32, float64) for every aggregate; compared with ref.Agg; a case = one batch; non-trivial = a result row was delivered and compared",
+		Rule: "bounded-exhaustive enumeration on the real engine (CountingWindow(N) batches, deterministic schedule): all value sequences of length N over {-2,0,1,2.5,NULL,missing} for 16 aggregate columns, percentile(p in 0,.25,.5,.95,1)/nth_value, expression arguments (v+w, v*2, (v-1)*2, d.x) over all pairs of values per row; every batch runs on an instance shared with all other batches in forward and reverse enumeration order (state leak between consecutive batches), all ordered pairs of batches for N<=2 on fresh instances, and two interleaved groups in one tumbling window for all pairs of per-group sequences; all pairs of values over the 12 Go numeric types (int8..uint64, float32, float64) for every aggregate; all sequences of length 3..4 over values that are large relative to their spread (1e9+1, 1e9+2, 1e9+4, 1e9+8, -1e9; tolerance 1e-6); compared with ref.Agg; a case = one batch; non-trivial = a result row was delivered and compared",
 		Bounds:      map[string]any{"N": map[string]int{"quick": 4, "thorough": 6}, "alphabet": []string{"-2", "0", "1", "2.5", "NULL", "missing"}},
 		Assumptions: []string{"percentile: only the order-statistic bracket and p=0/1 are asserted (the docs fix no interpolation rule)", "stddevs/vars are compared only for >=2 usable values; median/percentile/stddev/var over no usable input are not asserted (property fixes NULL only for sum/avg/min/max)", "nth_value with NULL/missing rows: both readings (n-th row / n-th usable value) accepted", "floats compared with relative tolerance 1e-9"},
 	}
